@@ -281,6 +281,27 @@ func cmdCheck(args []string) int {
 		workers = 2
 	}
 	SolveAll(obls, timeout, workers, false)
+	// an obligation that ran out of time while the machine was saturated is tried once more with two workers and
+	// twice the time before it is reported as undecided
+	var again []*Obligation
+	for _, ob := range obls {
+		if !ob.Cover && (ob.Result.Status == "timeout" || ob.Result.Status == "unknown") {
+			again = append(again, ob)
+		}
+	}
+	retried := len(again)
+	if retried > 0 && retried <= 24 {
+		firstTry := map[*Obligation]*SolveResult{}
+		for _, ob := range again {
+			firstTry[ob] = ob.Result
+		}
+		SolveAll(again, 2*timeout, 2, false)
+		for _, ob := range again {
+			if ob.Result.Status == "timeout" || ob.Result.Status == "unknown" {
+				ob.Result.Seconds += firstTry[ob].Seconds
+			}
+		}
+	}
 
 	// 3. classify
 	type failure struct {
@@ -460,6 +481,10 @@ func cmdCheck(args []string) int {
 	}
 	var trusted, assumptions []string
 	for t := range trustedSet {
+		if strings.HasPrefix(t, "TRUSTED AXIOM") {
+			trusted = append(trusted, t)
+			continue
+		}
 		trusted = append(trusted, "assumed contract of "+t)
 	}
 	sort.Strings(trusted)
@@ -481,6 +506,17 @@ func cmdCheck(args []string) int {
 	if lvl == "proof" && (discharged != total || violations > 0) {
 		lvl = "other"
 	}
+	var slowest []map[string]any
+	{
+		byTime := append([]*Obligation{}, obls...)
+		sort.SliceStable(byTime, func(i, j int) bool { return byTime[i].Result.Seconds > byTime[j].Result.Seconds })
+		for i, ob := range byTime {
+			if i >= 5 {
+				break
+			}
+			slowest = append(slowest, map[string]any{"obligation": ob.Name, "solver": ob.Result.Solver, "seconds": round3(ob.Result.Seconds)})
+		}
+	}
 	ev := evidenceFile{PropertyID: *prop, Tier: *tier, Seed: seed, Level: lvl, WallS: round3(time.Since(t0).Seconds()), Violations: violations,
 		Assumptions: assumptions,
 		Coverage: map[string]any{
@@ -492,7 +528,7 @@ func cmdCheck(args []string) int {
 			"checker_cmd": fmt.Sprintf("/verif/bin/govc check -prop %s -tier %s -repo %s", *prop, *tier, *repo),
 			"trusted_base": trusted, "by_solver": bySolver, "samples": samples,
 			"known_findings_hit": knownHits,
-			"solver_timeout_s": timeout,
+			"solver_timeout_s": timeout, "retried_after_timeout": retried, "slowest": slowest,
 			"explanation": fmt.Sprintf("contract-based deductive verification: %d functions under contract, %d obligations generated from /repo's SSA, %d discharged (unsat); %d carry property tag %s", len(names), total, discharged, headline, *prop),
 		}}
 	if *out != "" {
